@@ -303,6 +303,9 @@ class Gen:
         objpos = {}
         nobj = 0
         all_objs = []
+        # `ego` (the first object of the top level) is the one name under which a sub-scenario
+        # can reach an object of its parent: nested overrides of the same property
+        use_ego = bool(modular and f.get("p_ego") and f["w_override"] and t.chance(f["p_ego"], 8, "ego?"))
         for i in reversed(range(len(scn_names))):
             name = scn_names[i]
             top = i == 0
@@ -355,8 +358,10 @@ class Gen:
                 setup.append(["termafter", dur[0], dur[1]])
             if t.chance(f["p_ltl"], 8, "ltl?"):
                 setup.append(["ltl", self.ltl_formula()])
+            if use_ego and not top and t.chance(3, 4, "setup.override.ego?"):
+                setup.append(["override", "ego", t.choice(["foo", "foo", "foo", "bar"], "ovr.prop"), t.intrange(10, 99, "ovr.val")])
             d["setup"] = setup
-            self.objs_visible = myobjs
+            self.objs_visible = myobjs + (["ego", "ego"] if use_ego and not top else [])
             if (modular and top) or (not top and t.chance(1, 2, "sub.compose?")):
                 d["compose"] = ensure_generator(self.block("compose", name, f["depth"], scn_names[i + 1 :]))
             else:
@@ -364,9 +369,10 @@ class Gen:
             scenarios.insert(0, d)
         top_setup = scenarios[0]["setup"]
         if f.get("p_recordprop"):
+            ego_obj = next((st[1] for st in top_setup if st[0] == "new"), None) if use_ego else None
             for on in all_objs:
                 for pr in ("foo", "bar"):
-                    if t.chance(f["p_recordprop"], 8, "recordprop?"):
+                    if t.chance(f["p_recordprop"], 8, "recordprop?") or (on == ego_obj and pr == "foo"):
                         top_setup.append(["recordprop", f"r_{on}_{pr}", on, pr])
         if f.get("p_require_setup") and t.chance(f["p_require_setup"], 8, "require.setup?"):
             top_setup.append(["require", self.table("guard")])
@@ -380,7 +386,30 @@ class Gen:
                 top_setup.append(["new", "wall", None, [["width", 4], ["length", 0.5], ["height", 2]]])
                 top_setup.append(["new", "targ", None, [["requireVisible", False]]])
                 top_setup.append(["rawrequire", f"{viewer} can see targ"])
+        ego_name = next((st[1] for st in top_setup if st[0] == "new"), None) if use_ego else None
+        if ego_name and len(scenarios) >= 3 and t.chance(1, 2, "nested.override.template?"):
+            # directed shape inside the random program: S1 overrides a property of the ego and
+            # runs S2, which overrides it again and outlives S1; the top level cuts S1 off and
+            # keeps running (the documented order of undoing: sub-scenarios first, then the
+            # scenario's own overrides)
+            s1, s2 = scenarios[1], scenarios[2]
+            pr = t.choice(["foo", "bar"], "nested.prop")
+            s1["setup"].append(["override", "ego", pr, t.intrange(10, 49, "nested.v1")])
+            s2["setup"].append(["override", "ego", pr, t.intrange(50, 99, "nested.v2")])
+            s2["compose"] = [["waitfor", 4, "steps"]] + (s2["compose"] or [])
+            s1["compose"] = [["do", [s2["name"]], None]] + (s1["compose"] or [])
+            cut = t.intrange(1, 2, "nested.cut")
+            if t.chance(1, 2, "nested.by_parent"):
+                scenarios[0]["compose"] = [["do", [s1["name"]], ["for", cut, "steps"]]] + scenarios[0]["compose"]
+            else:
+                s1["setup"].append(["termafter", cut, "steps"])
+                scenarios[0]["compose"] = [["do", [s1["name"]], None]] + scenarios[0]["compose"]
+            scenarios[0]["compose"] = scenarios[0]["compose"] + [["wait"]]
+            if not any(st[0] == "recordprop" and st[2:] == [ego_name, pr] for st in top_setup):
+                top_setup.append(["recordprop", f"r_{ego_name}_{pr}", ego_name, pr])
+            max_steps = max(max_steps, cut + 3)
         prog = {
+            "ego": ego_name,
             "ftab": bool(f.get("ftab")),
             "has_behavior_override": self.has_behavior_override,
             "timestep": self.timestep,
